@@ -13,6 +13,9 @@ pub const C2: &str = include_str!("../../corpus/dirwalk/c2.sol");
 pub const C3: &str = include_str!("../../corpus/dirwalk/c3.sol");
 // a "barrel" file: only a (floating) pragma and imports -- still an eligible file with a finding
 pub const C4: &str = include_str!("../../corpus/dirwalk/c4.sol");
+// twins: the same byte length, one line feed moved, hence other lines reported
+pub const C5: &str = include_str!("../../corpus/dirwalk/c5.sol");
+pub const C6: &str = include_str!("../../corpus/dirwalk/c6.sol");
 // witness files on which every detector fires (SafeMath below / above 0.8.0, ...): used for directed sibling pairs
 pub const W_OLD: &str = include_str!("../../corpus/witness/Old.sol");
 pub const W_NEW: &str = include_str!("../../corpus/witness/New.sol");
@@ -261,6 +264,8 @@ fn base_contents() -> BTreeMap<String, String> {
     m.insert("c2".to_string(), C2.to_string());
     m.insert("c3".to_string(), C3.to_string());
     m.insert("c4".to_string(), C4.to_string());
+    m.insert("c5".to_string(), C5.to_string());
+    m.insert("c6".to_string(), C6.to_string());
     m
 }
 
@@ -469,7 +474,7 @@ pub fn random(corpus_dir: &str, scratch: &str, count: usize, c16: bool, trace: &
     let mut pair_no = 0usize;
     for cat in cats {
         let (pats, ids, res) = &usable[cat];
-        let wit: Vec<&str> = ["w_old", "w_new", "c1", "c2", "c3", "c4", "h_try_shapes.sol"].into_iter().filter(|w| ids.iter().any(|i| i == w)).collect();
+        let wit: Vec<&str> = ["w_old", "w_new", "c1", "c2", "c3", "c4", "c5", "c6", "h_try_shapes.sol"].into_iter().filter(|w| ids.iter().any(|i| i == w)).collect();
         for x in wit.iter() {
             for y in wit.iter() {
                 if x == y {
